@@ -36,8 +36,13 @@ def gen(rng, n):
             # reached through a symlink located on another volume
             other = rng.choice(vols)
             lk = scen.Layout.j(other, 'lnk')
-            nodes.append(['l', lk, parent])
-            arg = lk + '/' + name
+            if sub and rng.random() < 0.5:
+                # the link stands for an ANCESTOR: the direct parent of the file is a real directory below it
+                nodes.append(['l', lk, scen.Layout.j(v, 'data')])
+                arg = lk + '/' + sub + '/' + name
+            else:
+                nodes.append(['l', lk, parent])
+                arg = lk + '/' + name
             via = other
         env_extra = {}
         hf = rng.random() < 0.3
